@@ -1,6 +1,8 @@
 """C08 — density volumes conserve every sample and use a consistent voxel mapping."""
 from __future__ import annotations
 
+import warnings
+
 import numpy as np
 
 from .. import gen, geom, snap
@@ -223,6 +225,21 @@ def run_unit(unit, rng, ctx):
         ctx.check(int(np.asarray(vol_b.data).sum()) == T_b * N_b, f'{what}: second volume on the same grid: voxel sum {int(np.asarray(vol_b.data).sum())} != frames x atoms {T_b * N_b}', wit)
         ctx.check(np.array_equal(np.asarray(vol.data), first), f'{what}: the first volume changed when a second trajectory was binned on the same grid (sum {int(np.asarray(vol.data).sum())}, was {int(first.sum())})', wit)
         ctx.count('second_volumes_on_the_same_grid')
+    if unit['i'] % 16 == 5:
+        # a lost atom (NaN coordinates in one frame) has no voxel: the library must refuse (it asserts the range of
+        # the coordinates), never hand out a volume that silently counts fewer samples than frames x atoms
+        Xn = np.array(X, dtype=float)
+        Xn[int(rng.integers(T)), int(rng.integers(N))] = np.nan
+        tn = gen.make_trajectory(m, gen.species_objects(['Li'] * N), Xn, presentation='plain')
+        try:
+            with warnings.catch_warnings():
+                warnings.simplefilter('ignore')
+                vn = tn.to_volume(resolution=res)
+        except Exception:  # noqa: BLE001  (any loud refusal is fine)
+            ctx.decided()
+            ctx.count('lost_atom_refused_loudly')
+        else:
+            ctx.check(int(np.asarray(vn.data).sum()) == T * N, f'{what}: a trajectory with a NaN coordinate was binned without complaint; the voxel sum is {int(np.asarray(vn.data).sum())}, frames x atoms is {T * N}', wit)
     size = lengths / n
     ctx.check(bool(np.all(size >= res * (1 - 1e-12)) and np.all(size < 2 * res * (1 + 1e-12))), f'{what}: voxel edges {size.tolist()} not in [resolution, 2 x resolution) (grid {n.tolist()}, lengths {lengths.tolist()})', wit)
     ctx.check(np.allclose(np.asarray(vol.voxel_size), size, rtol=1e-12), f'{what}: voxel_size {np.asarray(vol.voxel_size).tolist()} != lengths / grid {size.tolist()}', wit)
